@@ -638,38 +638,39 @@ class CSSMatch(_DocumentNav):
     def find_bidi(self, el: bs4.Tag) -> int | None:
         """Get directionality from element text."""
 
-        for node in self.get_children(el):
+        # Depth first walk with an explicit stack (the tree can be deeper than the recursion limit)
+        stack = [iter(self.get_children(el))]
+        while stack:
+            for node in stack[-1]:
 
-            # Analyze child text nodes
-            if self.is_tag(node):
+                # Analyze child text nodes
+                if self.is_tag(node):
 
-                # Avoid analyzing certain elements specified in the specification.
-                direction = DIR_MAP.get(util.lower(self.get_attribute_by_name(node, 'dir', '')), None)  # type: ignore[arg-type]
-                name = self.get_tag(node)  # type: ignore[arg-type]
-                if (
-                    (name and name in ('bdi', 'script', 'style', 'textarea', 'iframe')) or
-                    not self.is_html_tag(node) or  # type: ignore[arg-type]
-                    direction is not None
-                ):
-                    continue  # pragma: no cover
+                    # Avoid analyzing certain elements specified in the specification.
+                    direction = DIR_MAP.get(util.lower(self.get_attribute_by_name(node, 'dir', '')), None)  # type: ignore[arg-type]
+                    name = self.get_tag(node)  # type: ignore[arg-type]
+                    if (
+                        (name and name in ('bdi', 'script', 'style', 'textarea', 'iframe')) or
+                        not self.is_html_tag(node) or  # type: ignore[arg-type]
+                        direction is not None
+                    ):
+                        continue  # pragma: no cover
 
-                # Check directionality of this node's text
-                value = self.find_bidi(node)  # type: ignore[arg-type]
-                if value is not None:
-                    return value
+                    # Check directionality of this node's text
+                    stack.append(iter(self.get_children(node)))  # type: ignore[arg-type]
+                    break
 
-                # Direction could not be determined
-                continue  # pragma: no cover
+                # Skip `doctype` comments, etc.
+                if self.is_special_string(node):
+                    continue
 
-            # Skip `doctype` comments, etc.
-            if self.is_special_string(node):
-                continue
-
-            # Analyze text nodes for directionality.
-            for c in node:  # type: ignore[attr-defined]
-                bidi = unicodedata.bidirectional(c)
-                if bidi in ('AL', 'R', 'L'):
-                    return ct.SEL_DIR_LTR if bidi == 'L' else ct.SEL_DIR_RTL
+                # Analyze text nodes for directionality.
+                for c in node:  # type: ignore[attr-defined]
+                    bidi = unicodedata.bidirectional(c)
+                    if bidi in ('AL', 'R', 'L'):
+                        return ct.SEL_DIR_LTR if bidi == 'L' else ct.SEL_DIR_RTL
+            else:
+                stack.pop()
         return None
 
     def extended_language_filter(self, lang_range: str, lang_tag: str) -> bool:
@@ -1346,57 +1347,62 @@ class CSSMatch(_DocumentNav):
         if directionality & ct.SEL_DIR_LTR and directionality & ct.SEL_DIR_RTL:
             return False
 
-        if el is None or not self.is_html_tag(el):
-            return False
+        # Walk up the ancestors (in a loop, as the tree can be deeper than the recursion limit)
+        # until the direction is determined.
+        while True:
+            if el is None or not self.is_html_tag(el):
+                return False
 
-        # Element has defined direction of left to right or right to left
-        direction = DIR_MAP.get(util.lower(self.get_attribute_by_name(el, 'dir', '')), None)
-        if direction not in (None, 0):
-            return direction == directionality
-
-        # Element is the document element (the root) and no direction assigned, assume left to right.
-        is_root = self.is_root(el)
-        if is_root and direction is None:
-            return ct.SEL_DIR_LTR == directionality
-
-        # If `input[type=telephone]` and no direction is assigned, assume left to right.
-        name = self.get_tag(el)
-        is_input = name == 'input'
-        is_textarea = name == 'textarea'
-        is_bdi = name == 'bdi'
-        itype = util.lower(self.get_attribute_by_name(el, 'type', '')) if is_input else ''
-        if is_input and itype == 'tel' and direction is None:
-            return ct.SEL_DIR_LTR == directionality
-
-        # Auto handling for text inputs
-        if ((is_input and itype in ('text', 'search', 'tel', 'url', 'email')) or is_textarea) and direction == 0:
-            if is_textarea:
-                value = ''.join(node for node in self.get_contents(el, no_iframe=True) if self.is_content_string(node))  # type: ignore[misc]
-            else:
-                value = cast(str, self.get_attribute_by_name(el, 'value', ''))
-            if value:
-                for c in value:
-                    bidi = unicodedata.bidirectional(c)
-                    if bidi in ('AL', 'R', 'L'):
-                        direction = ct.SEL_DIR_LTR if bidi == 'L' else ct.SEL_DIR_RTL
-                        return direction == directionality
-                # Assume left to right
-                return ct.SEL_DIR_LTR == directionality
-            elif is_root:
-                return ct.SEL_DIR_LTR == directionality
-            return self.match_dir(self.get_parent(el, no_iframe=True), directionality)
-
-        # Auto handling for `bdi` and other non text inputs.
-        if (is_bdi and direction is None) or direction == 0:
-            direction = self.find_bidi(el)
-            if direction is not None:
+            # Element has defined direction of left to right or right to left
+            direction = DIR_MAP.get(util.lower(self.get_attribute_by_name(el, 'dir', '')), None)
+            if direction not in (None, 0):
                 return direction == directionality
-            elif is_root:
-                return ct.SEL_DIR_LTR == directionality
-            return self.match_dir(self.get_parent(el, no_iframe=True), directionality)
 
-        # Match parents direction
-        return self.match_dir(self.get_parent(el, no_iframe=True), directionality)
+            # Element is the document element (the root) and no direction assigned, assume left to right.
+            is_root = self.is_root(el)
+            if is_root and direction is None:
+                return ct.SEL_DIR_LTR == directionality
+
+            # If `input[type=telephone]` and no direction is assigned, assume left to right.
+            name = self.get_tag(el)
+            is_input = name == 'input'
+            is_textarea = name == 'textarea'
+            is_bdi = name == 'bdi'
+            itype = util.lower(self.get_attribute_by_name(el, 'type', '')) if is_input else ''
+            if is_input and itype == 'tel' and direction is None:
+                return ct.SEL_DIR_LTR == directionality
+
+            # Auto handling for text inputs
+            if ((is_input and itype in ('text', 'search', 'tel', 'url', 'email')) or is_textarea) and direction == 0:
+                if is_textarea:
+                    value = ''.join(node for node in self.get_contents(el, no_iframe=True) if self.is_content_string(node))  # type: ignore[misc]
+                else:
+                    value = cast(str, self.get_attribute_by_name(el, 'value', ''))
+                if value:
+                    for c in value:
+                        bidi = unicodedata.bidirectional(c)
+                        if bidi in ('AL', 'R', 'L'):
+                            direction = ct.SEL_DIR_LTR if bidi == 'L' else ct.SEL_DIR_RTL
+                            return direction == directionality
+                    # Assume left to right
+                    return ct.SEL_DIR_LTR == directionality
+                elif is_root:
+                    return ct.SEL_DIR_LTR == directionality
+                el = self.get_parent(el, no_iframe=True)
+                continue
+
+            # Auto handling for `bdi` and other non text inputs.
+            if (is_bdi and direction is None) or direction == 0:
+                direction = self.find_bidi(el)
+                if direction is not None:
+                    return direction == directionality
+                elif is_root:
+                    return ct.SEL_DIR_LTR == directionality
+                el = self.get_parent(el, no_iframe=True)
+                continue
+
+            # Match parents direction
+            el = self.get_parent(el, no_iframe=True)
 
     def match_range(self, el: bs4.Tag, condition: int) -> bool:
         """
